@@ -218,4 +218,14 @@ model): `u_cap` is built from `blinded_cred_secrets.hidden_attributes`, each res
 in `m_caps` with an error when missing — not from the proof's own `m_caps` keys -/
 theorem blinded_fold_from_source : Gen.blindedFoldOverDeclaredHidden = true := rfl
 
+/-- **the commitment loop runs over the DECLARED commitments** (`committedLoop … b.committed`
+in the model): every entry of `committed_attributes` needs its `m_caps` and `r_caps` responses -/
+theorem blinded_commit_loop_from_source : Gen.blindedLoopOverDeclaredCommitted = true := rfl
+
+/-- **names covered by the key proof** (`checkKeyProof`'s two name conditions): every generator of
+the key is named in `xr_cap` except the legacy `master_secret`, and every name of `xr_cap` is a
+generator of the key -/
+theorem key_proof_names_from_source :
+    Gen.keyProofExemptsOnlyMasterSecret = true ∧ Gen.keyProofNamesMustBeInKey = true := ⟨rfl, rfl⟩
+
 end CL.C05
